@@ -145,16 +145,22 @@ def run(index: RepoIndex, rep) -> None:
     else:
         rep.note('no _move_action_to_orientation table: the move mapping is decided by the '
                  'denotation of get_next_position (C08.R2)')
-    tab = index.table(TRANS, '_action_orientations')
-    got = {}
-    for k, v in zip(tab.keys, tab.values):
-        a, o = index.enum_member(k), index.enum_member(v)
-        if not a or not o:
-            raise AnalysisError('_action_orientations: non-literal entry')
-        got[a[1]] = o[1]
-    want = {'TURN_LEFT': 'LEFT', 'TURN_RIGHT': 'RIGHT'}
-    rep.check(got == want, 'C08.R1', TRANS, '_action_orientations', tab.lineno, src(tab),
-              f'turn table is {got}, documented mapping is {want}', 'turn table')
+    if '_action_orientations' in index.module(TRANS).assigns and \
+            isinstance(index.table(TRANS, '_action_orientations'), ast.Dict):
+        tab = index.table(TRANS, '_action_orientations')
+        got = {}
+        for k, v in zip(tab.keys, tab.values):
+            a, o = index.enum_member(k), index.enum_member(v)
+            if not a or not o:
+                raise AnalysisError('_action_orientations: non-literal entry')
+            got[a[1]] = o[1]
+        want = {'TURN_LEFT': 'LEFT', 'TURN_RIGHT': 'RIGHT'}
+        rep.check(got == want, 'C08.R1', TRANS, '_action_orientations', tab.lineno, src(tab),
+                  f'turn table is {got}, documented mapping is {want}', 'turn table')
+    else:
+        rep.note('no literal _action_orientations table: the turn mapping is decided by the '
+                 'denotation of turn_agent (C08.R4)')
+        rep.holds('C08.R1', f'{TRANS}:turn mapping', 'decided by the denotation of turn_agent')
     for name, want_set in (('_MOVE_ACTIONS', {'MOVE_FORWARD', 'MOVE_BACKWARD', 'MOVE_LEFT',
                                              'MOVE_RIGHT'}),
                            ('_TURN_ACTIONS', {'TURN_LEFT', 'TURN_RIGHT'})):
@@ -228,30 +234,41 @@ def run(index: RepoIndex, rep) -> None:
     if not ori:
         rep.violation('C08.R4', TRANS, 'turn_agent', f.node.lineno, 'turn_agent',
                       'turn_agent never stores the heading')
-    for e in ori:
-        tab_e = '_action_orientations[A]'
-        if e.kind == 'augstore':
-            ok = isinstance(e.ev.node.op, ast.Mult) and e.value == tab_e
-        else:
-            ok = e.value in (f'S.agent.orientation * {tab_e}', f'{tab_e} * S.agent.orientation')
-        rep.check(ok, 'C08.R4', TRANS, 'turn_agent', e.line, src(e.ev.stmt),
-                  f'the heading is updated with `{e.value}`, not composed with the turn table '
-                  f'entry of the action', 'heading update')
-    guards = [e.guard for e in ori]
-    worlds = m.worlds(guards, touch=[_f('A.is_turn()')])
-    bad = None
-    for w in worlds:
-        fired = any(ev.holds(g, w) for g in guards)
-        a = w.vals.get(('action',))
-        want_f = a in ev.action_tables['_TURN_ACTIONS'] if a is not None else None
-        if want_f is None or fired != want_f:
-            bad = (w, fired)
-            break
-    rep.check(bad is None, 'C08.R4', TRANS, 'turn_agent', f.node.lineno,
-              ' | '.join(show(g) for g in guards),
-              'turn gate differs from `action is a turn action`: ' +
-              (f'heading {"changes" if bad[1] else "unchanged"} when {describe_world(bad[0])}'
-               if bad else ''), f'turn gate equivalent in {len(worlds)} worlds')
+    # denotation: for every heading and action, the heading after turn_agent
+    from ..geom import GeoInterp, GeoKeyError
+    gi = GeoInterp(index)
+    tmod = index.module(TRANS)
+    turn_dir = {'TURN_LEFT': 'LEFT', 'TURN_RIGHT': 'RIGHT'}
+    HEAD = 'S.agent.orientation'
+    for o in geo.orients:
+        for a in acts.order:
+            env = {'A': ('E', 'Action', a), HEAD: ('O', o)}
+            new_h = ('O', o)
+            why = ''
+            try:
+                for e in ori:
+                    if not gi.holds(e.guard, env, tmod, m.walk, 4):
+                        continue
+                    val = e.value_node
+                    if e.kind == 'augstore':
+                        val = ast.BinOp(ast.parse(HEAD, mode='eval').body, e.ev.node.op, val)
+                    new_h = gi.eval(val, dict(env, **{HEAD: new_h}), tmod)
+            except GeoKeyError as ex:
+                new_h, why = ('X', f'KeyError({ex})'), 'a KeyError escapes'
+            except AnalysisError as ex:
+                raise AnalysisError(f'turn_agent outside the grammar: {ex}')
+            want_h = ('O', geo.rot[(o, turn_dir[a])]) if a in turn_dir else ('O', o)
+            rep.check(new_h == want_h, 'C08.R4', TRANS, 'turn_agent', f.node.lineno,
+                      f'heading {o}, {a} -> {new_h[1] if len(new_h) > 1 else new_h}',
+                      f'heading {o}, action {a}: the heading becomes '
+                      f'{new_h[1] if len(new_h) > 1 else new_h}, expected {want_h[1]} '
+                      f'({"a quarter turn " + turn_dir[a].lower() if a in turn_dir else "no change"})'
+                      f' {why}', f'turn {o},{a}')
+    others = [e for e in m.effects if e.kind in ('store', 'attrstore', 'augstore', 'delete')
+              and e not in ori]
+    rep.check(not others, 'C08.R4', TRANS, 'turn_agent', f.node.lineno,
+              '; '.join(src(e.ev.stmt) for e in others) or 'turn_agent',
+              f'turn_agent also writes {[e.target for e in others]}', 'turn_agent writes only the heading')
 
     # ---------------------------------------------------------------- R5
     effect_table(index, rep, 'C08.R5', {'position', 'orientation'})
